@@ -301,22 +301,65 @@ theorem bulkTransition_spec {σ : Type} (step : σ → Nat → Nat → MapState 
 
 /-! ## the mmapper operations and histories -/
 
+theorem bulkSetState_mapped_mono (S : Storage) (c0 n c : Nat) :
+    (getState S c).rank ≤ (getState (bulkSetState S c0 n .mapped).1 c).rank := by
+  by_cases h : c0 + n ≤ limitChunks ∨ n = 0
+  · have h2 := ((two_level_refines_flat S c0 n .mapped).1 h).2 c
+    rw [h2]
+    by_cases hc : c0 ≤ c ∧ c < c0 + n
+    · rw [if_pos hc]; cases getState S c <;> decide
+    · rw [if_neg hc]; exact Nat.le_refl _
+  · have h2 := (two_level_refines_flat S c0 n .mapped).2 h
+    rw [h2]; exact Nat.le_refl _
+
+theorem bulkSetState_mapped_reaches (S : Storage) (c0 n c : Nat)
+    (hok : (bulkSetState S c0 n .mapped).2 = .ok) (h1 : c0 ≤ c) (h2 : c < c0 + n) :
+    2 ≤ (getState (bulkSetState S c0 n .mapped).1 c).rank := by
+  by_cases h : c0 + n ≤ limitChunks ∨ n = 0
+  · have h3 := ((two_level_refines_flat S c0 n .mapped).1 h).2 c
+    rw [h3, if_pos ⟨h1, h2⟩]; decide
+  · have h3 := (two_level_refines_flat S c0 n .mapped).2 h
+    rw [h3] at hok; cases hok
+
 inductive Op
   | quarantine (start pages : Nat)
   | ensureMapped (start pages : Nat)
   | markAsMapped (start bytes : Nat)
 deriving Repr
 
+/-- `mark_as_mapped` on the range `r` (no OS call: the OS state is untouched).
+By `markAsMapped_eq`, `bulkSetState S r.1 r.2 .mapped` with `r = rangeOfUnaligned start bytes` is
+the model's `markAsMapped S start bytes`. -/
+def markStep {σ : Type} (S : Storage) (st : σ) (r : Nat × Nat) : Storage × σ × Res :=
+  match bulkSetState S r.1 r.2 .mapped with
+  | (S', res) => (S', st, res)
+
 def runOp {σ : Type} (os : OS σ) (S : Storage) (st : σ) : Op → Storage × σ × Res
   | .quarantine s p => quarantine os S st s p
   | .ensureMapped s p => ensureMapped os S st s p
-  | .markAsMapped s b => let r := markAsMapped S s b; (r.1, st, r.2)
+  | .markAsMapped s b => markStep S st (rangeOfUnaligned s b)
+
+theorem markStep_fst {σ : Type} (S : Storage) (st : σ) (r : Nat × Nat) :
+    (markStep S st r).1 = (bulkSetState S r.1 r.2 .mapped).1 := by
+  unfold markStep
+  generalize bulkSetState S r.1 r.2 .mapped = X
+  cases X; rfl
+
+theorem markStep_res {σ : Type} (S : Storage) (st : σ) (r : Nat × Nat) :
+    (markStep S st r).2.2 = (bulkSetState S r.1 r.2 .mapped).2 := by
+  unfold markStep
+  generalize bulkSetState S r.1 r.2 .mapped = X
+  cases X; rfl
 
 /-- Run a whole history (results of the individual ops are irrelevant for monotonicity: the
 storage is followed through failures and panics alike). -/
 def runHist {σ : Type} (os : OS σ) : List Op → Storage → σ → Storage × σ
   | [], S, st => (S, st)
   | o :: os', S, st => let r := runOp os S st o; runHist os os' r.1 r.2.1
+
+/-- (stated once by `rfl`; unfolding `markAsMapped` in place sends the elaborator into a loop) -/
+theorem markAsMapped_eq (S : Storage) (s b : Nat) :
+    markAsMapped S s b = bulkSetState S (rangeOfUnaligned s b).1 (rangeOfUnaligned s b).2 .mapped := rfl
 
 theorem runOp_monotone {σ : Type} (os : OS σ) (S : Storage) (st : σ) (o : Op) (c : Nat) :
     (getState S c).rank ≤ (getState (runOp os S st o).1 c).rank := by
@@ -330,16 +373,9 @@ theorem runOp_monotone {σ : Type} (os : OS σ) (S : Storage) (st : σ) (o : Op)
     generalize rangeOfUnaligned s (p * 2 ^ logBytesInPage) = r
     exact (bulkTransition_spec _ (ensureMappedStep_mono os) 2 (ensureMappedStep_reach os) S st r.1 r.2).1 c
   | markAsMapped s b =>
-    simp only [runOp, markAsMapped]
-    generalize rangeOfUnaligned s b = r
-    generalize r.1 = c0
-    generalize r.2 = n
-    by_cases h : c0 + n ≤ limitChunks ∨ n = 0
-    · rw [((two_level_refines_flat S c0 n .mapped).1 h).2 c]
-      split
-      · cases getState S c <;> simp [MapState.rank]
-      · exact Nat.le_refl _
-    · rw [(two_level_refines_flat S c0 n .mapped).2 h]; exact Nat.le_refl _
+    simp only [runOp]
+    rw [markStep_fst]
+    exact bulkSetState_mapped_mono S _ _ c
 
 /-- **C30 (monotone).** For every history of `quarantine_address_range` / `ensure_mapped` /
 `mark_as_mapped` over arbitrary ranges, every OS behaviour (any call may fail) and every chunk: the
@@ -382,14 +418,12 @@ theorem range_reaches_state {σ : Type} (os : OS σ) (S : Storage) (st : σ) (o 
     generalize rangeOfUnaligned s (p * 2 ^ logBytesInPage) = r at *
     exact (bulkTransition_spec _ (ensureMappedStep_mono os) 2 (ensureMappedStep_reach os) S st r.1 r.2).2 hok c h1 h2
   | markAsMapped s b =>
-    simp only [runOp, markAsMapped, Op.range] at hok h1 h2 ⊢
-    generalize rangeOfUnaligned s b = r at *
-    generalize r.1 = c0 at *
-    generalize r.2 = n at *
-    by_cases h : c0 + n ≤ limitChunks ∨ n = 0
-    · rw [((two_level_refines_flat S c0 n .mapped).1 h).2 c]
-      simp [h1, h2, MapState.rank, Op.target]
-    · rw [(two_level_refines_flat S c0 n .mapped).2 h] at hok; cases hok
+    simp only [runOp] at hok ⊢
+    rw [markStep_res] at hok
+    rw [markStep_fst]
+    simp only [Op.range] at h1 h2
+    simp only [Op.target]
+    exact bulkSetState_mapped_reaches S _ _ c hok h1 h2
 
 /-- **C30 (is_mapped).** `is_mapped_address(a)` is true exactly when the chunk containing `a` is
 recorded Mapped (for every address, aligned or not, inside or outside the mappable range). -/
